@@ -124,6 +124,7 @@ func (e *Exec) instr(f *frame, st *State, ins ssa.Instruction) bool {
 		v := e.value(f, x.X)
 		k := e.value(f, x.Index)
 		if mt, ok := x.X.Type().Underlying().(*types.Map); ok {
+			e.guardMapUse(f, st, v, false, x)
 			val, pres := e.mapLookup(st, v.T, k.T, mt)
 			e.assume(implies(st.Reach, implies(pres, app(">", e.mapLen(st, v.T), "0"))))
 			if x.CommaOk {
@@ -195,11 +196,13 @@ func (e *Exec) instr(f *frame, st *State, ins ssa.Instruction) bool {
 		e.panicObl(f, st, "nilmap", not(eq(m.T, "0")), x)
 		mt := x.Map.Type().Underlying().(*types.Map)
 		e.frameCheckMap(f, st, m.T, x)
+		e.guardMapUse(f, st, m, true, x)
 		e.mapUpdate(st, m.T, k.T, v, mt)
 	case *ssa.Range:
 		v := e.value(f, x.X)
 		it := &mapIter{m: v}
 		if mt, ok := x.X.Type().Underlying().(*types.Map); ok {
+			e.guardMapUse(f, st, v, false, x)
 			it.mt = mt
 			kty := tyOfGo(mt.Key())
 			it.visited = fmt.Sprintf("IT.%s%s", f.prefix, x.Name())
@@ -222,6 +225,7 @@ func (e *Exec) instr(f *frame, st *State, ins ssa.Instruction) bool {
 		}
 		a := e.addrOf(p)
 		e.frameCheckStore(f, st, a, x)
+		e.guardAccess(f, st, a, true, x)
 		e.store(st, a, v)
 	case *ssa.TypeAssert:
 		e.execTypeAssert(f, st, x)
@@ -310,7 +314,13 @@ func (e *Exec) execUnOp(f *frame, st *State, x *ssa.UnOp) {
 		a := e.addrOf(v)
 		val := e.load(st, a)
 		val.Ty = retype(val.Ty, x.Type())
+		tag := e.guardAccess(f, st, a, false, x)
 		e.bind(f, x, val)
+		if tag != nil {
+			bv := f.vals[x]
+			bv.Guard = tag
+			f.vals[x] = bv
+		}
 		if inv := e.typeInv(st, f.vals[x]); inv != "true" {
 			e.assume(inv)
 		}
@@ -620,3 +630,88 @@ func (e *Exec) ghostInit(st *State, ref string, t types.Type) {
 		}
 	}
 }
+
+
+// ---- lock discipline (C16) ------------------------------------------------------------------------
+
+// guardAccess: obligation for a load / store of a location declared `guarded` or `frozen`. The
+// object is exempt while it is still local to this call (allocated after entry). For a guarded
+// location holding a map the returned tag travels with the loaded map value, so that operations
+// on the map are checked at the time they happen.
+func (e *Exec) guardAccess(f *frame, st *State, a *Addr, write bool, ins ssa.Instruction) *GuardTag {
+	if a == nil || a.Heap == "" {
+		return nil
+	}
+	var g *GuardDecl
+	what := ""
+	obj := ""
+	if strings.HasPrefix(a.Heap, "F.") {
+		g = e.W.GuardField[a.Heap]
+		what = strings.TrimPrefix(a.Heap, "F.")
+		obj = a.Obj
+	} else if strings.HasPrefix(a.Obj, "glob.") {
+		g = e.W.GuardGlobal[a.Obj]
+		what = strings.TrimPrefix(a.Obj, "glob.")
+	}
+	if g == nil {
+		return nil
+	}
+	local := "false"
+	if obj != "" {
+		local = app(">", obj, e.top.entryTop)
+	}
+	if g.Frozen {
+		if write {
+			e.oblig(st, "guard", what+".frozen-write", local, "the location is read without synchronisation by concurrent requests: it may only be written while its object is still local to the call", e.position(ins.Pos()))
+		}
+		if _, isMap := a.Ty.Go.Underlying().(*types.Map); isMap {
+			return &GuardTag{Lock: "", Obj: obj, What: what, Decl: g}
+		}
+		return nil
+	}
+	env := &Env{E: e, Vars: map[string]Val{}, St: st, Old: e.entry, Imports: g.Imports, Pkg: g.Pkg, Where: fmt.Sprintf("%s:%d guarded", g.File, g.Line)}
+	if obj != "" {
+		env.Vars["this"] = Val{T: obj, Ty: tyOfGo(types.NewPointer(e.W.GuardType[a.Heap]))}
+	}
+	lock := env.elab(g.By)
+	held := e.heldTerm(st, lock.T)
+	kind := "read"
+	if write {
+		kind = "write"
+	}
+	e.oblig(st, "guard", what+"."+kind, or(local, held), "access to a guarded location while its lock is held (or the object is still local)", e.position(ins.Pos()))
+	if _, isMap := a.Ty.Go.Underlying().(*types.Map); isMap {
+		return &GuardTag{Lock: lock.T, Obj: obj, What: what, Decl: g}
+	}
+	return nil
+}
+
+// guardMapUse: operation on a map value that came out of a guarded location.
+func (e *Exec) guardMapUse(f *frame, st *State, m Val, write bool, ins ssa.Instruction) {
+	if m.Guard == nil {
+		return
+	}
+	local := "false"
+	if m.Guard.Obj != "" {
+		local = app(">", m.Guard.Obj, e.top.entryTop)
+	}
+	if m.Guard.Lock == "" {
+		// frozen: read freely, never written once shared
+		if write {
+			e.oblig(st, "guard", m.Guard.What+".frozen-mapwrite", local, "the map is read without synchronisation by concurrent requests: it may only be written while its owner is still local to the call", e.position(ins.Pos()))
+		}
+		return
+	}
+	kind := "mapread"
+	if write {
+		kind = "mapwrite"
+	}
+	e.oblig(st, "guard", m.Guard.What+"."+kind, or(local, e.heldTerm(st, m.Guard.Lock)), "operation on a guarded map while its lock is held", e.position(ins.Pos()))
+}
+
+func (e *Exec) heldTerm(st *State, lock string) string {
+	e.regHeap("G.$held", "(Array Int Bool)")
+	return app("select", e.get(st, "G.$held"), lock)
+}
+
+const noLocks = "((as const (Array Int Bool)) false)"
